@@ -9,7 +9,9 @@ leaves the statement sequence alone and is harmless as long as all dirty pages s
 This module therefore provides
 
 * a proxy for the `sqlite3` module object inside pygaps.parsing.sqlite that, like storelib's, counts `cursor.execute` calls and injects
-  the fault of a `Plan`, and in addition
+  the fault of a `Plan` — for statement faults the exception raised INSTEAD of statement k can be of any class (`Plan.exc`;
+  `exception_classes`: sqlite3.Error subclasses, Exception subclasses outside the sqlite3 hierarchy, BaseException subclasses), and the
+  proxy records out of which `execute` call an exception came, whoever raised it (`Plan.raised_in`) — and in addition
   - runs the operation with a SMALL PAGE CACHE (`PRAGMA cache_size = <pages>` on the real connection right after connect: the cache size
     is a parameter of the environment, not of the code's semantics), so that SQLite spills dirty pages into the database file before the
     commit, exactly what it does with the default cache on uploads of a few megabytes,
@@ -32,6 +34,45 @@ from . import storelib as sl
 #: values an upload of one isotherm spills from its first, fourth or ninth dirty page on (measured on the unchanged tree).
 CACHE_PAGES = (1, 4, 10)
 
+#: fault kinds raised INSTEAD of statement k (Model/Store.lean `FaultKind` without the two exits)
+STATEMENT_FAULTS = ("integrity", "interface", "operational", "foreign")
+
+
+def exception_classes(pgsql):
+    """The exception classes a statement can be left with, by what `with_connection` is specified to do with them
+    (Model/Store.lean `SqlErr`): -> {harness kind: (model kind, [(class name, factory)])}.
+
+    * 'dberror'   — sqlite3.Error subclasses other than Integrity-/InterfaceError (model: `.operational`: propagates, no commit);
+    * 'foreign'   — Exception subclasses OUTSIDE the sqlite3.Error hierarchy: what the driver raises while it binds a value
+                    (OverflowError, UnicodeEncodeError), what the module / json / numpy raise between two statements, MemoryError,
+                    sqlite3.Warning (an Exception, not a sqlite3.Error) and the library's own ParsingError (model: `.foreign`);
+    * 'interrupt' — BaseException subclasses that are no Exception: KeyboardInterrupt, SystemExit, GeneratorExit,
+                    asyncio.CancelledError (model: `.foreign` as well: no `except` clause of the wrapper matches)."""
+    import asyncio
+    real = sqlite3
+    parsing_error = getattr(pgsql, "ParsingError", None)
+    foreign = [
+        ("OverflowError", lambda: OverflowError("Python int too large to convert to SQLite INTEGER")),
+        ("UnicodeEncodeError", lambda: UnicodeEncodeError("utf-8", "a\udc80", 1, 2, "surrogates not allowed")),
+        ("MemoryError", lambda: MemoryError()),
+        ("ValueError", lambda: ValueError("injected fault")),
+        ("TypeError", lambda: TypeError("Object of type bytes is not JSON serializable")),
+        ("KeyError", lambda: KeyError("injected fault")),
+        ("RecursionError", lambda: RecursionError("injected fault")),
+        ("OSError", lambda: OSError(5, "injected fault")),
+        ("sqlite3.Warning", lambda: real.Warning("injected fault")),
+    ]
+    if isinstance(parsing_error, type) and not issubclass(parsing_error, real.Error):
+        foreign.append(("ParsingError", lambda: parsing_error("injected fault")))
+    return {
+        "dberror": ("operational", [(c, (lambda c=c: getattr(real, c)("injected fault")))
+                                    for c in ("ProgrammingError", "DatabaseError", "DataError", "InternalError", "NotSupportedError", "Error")]),
+        "foreign": ("foreign", foreign),
+        "interrupt": ("foreign", [("KeyboardInterrupt", lambda: KeyboardInterrupt()), ("SystemExit", lambda: SystemExit(3)),
+                                  ("GeneratorExit", lambda: GeneratorExit()), ("CancelledError", lambda: asyncio.CancelledError())]),
+    }
+
+
 _WRITE_RE = re.compile(r"^\s*(INSERT|UPDATE|DELETE|REPLACE|CREATE|DROP|ALTER)\b", re.I)
 _PRAGMA_RE = re.compile(r"^\s*PRAGMA\b", re.I)
 _TXN_RE = re.compile(r"^\s*(BEGIN|COMMIT|END|ROLLBACK|SAVEPOINT|RELEASE)\b", re.I)
@@ -40,10 +81,14 @@ _TXN_RE = re.compile(r"^\s*(BEGIN|COMMIT|END|ROLLBACK|SAVEPOINT|RELEASE)\b", re.
 class Plan(sl.Plan):
     """storelib.Plan + the environment the operation runs in + what is observed about the environment the code sets up."""
 
-    def __init__(self, k=None, kind=None, cache=None, observe=False):
+    def __init__(self, k=None, kind=None, cache=None, observe=False, exc=None):
         super().__init__(k, kind)
         self.cache = cache          # None = SQLite's default page cache
         self.observe = observe
+        self.exc = exc              # statement faults: a callable making the exception raised INSTEAD of statement k (None: the kind's default class)
+        self.planted = None         # the exception instance raised instead of statement k (statement faults)
+        self.raised_in = None       # index of the cursor.execute call out of which an exception came (planted, or raised by the driver itself
+        #                             while it bound the parameters / ran the statement); None: no execute call raised
         self.connects = 0
         self.rollbacks = 0
         self.envs = []              # distinct environment readings, in order of appearance
@@ -84,15 +129,26 @@ class _Cursor:
         p.count += 1
         conn._before(f"statement {k}", sql)
         if p.k == k:
-            if p.kind == "integrity":
-                raise conn._mod.IntegrityError("injected fault")
-            if p.kind == "interface":
-                raise conn._mod.InterfaceError("injected fault")
-            if p.kind == "operational":
-                raise conn._mod.OperationalError("injected fault")
+            if p.kind in STATEMENT_FAULTS:
+                p.raised_in = k
+                if p.exc is not None:
+                    p.planted = p.exc()
+                elif p.kind == "integrity":
+                    p.planted = conn._mod.IntegrityError("injected fault")
+                elif p.kind == "interface":
+                    p.planted = conn._mod.InterfaceError("injected fault")
+                elif p.kind == "operational":
+                    p.planted = conn._mod.OperationalError("injected fault")
+                else:
+                    p.planted = RuntimeError("injected fault")          # 'foreign': any exception class outside sqlite3.Error
+                raise p.planted
             if p.kind == "exitBefore":
                 os._exit(17)
-        call()
+        try:
+            call()
+        except BaseException:
+            p.raised_in = k
+            raise
         conn._after(k, sql)
         if p.k == k and p.kind == "exitAfter":
             os._exit(17)
@@ -276,6 +332,19 @@ def with_fault(pgsql, plan, thunk):
         return e
     finally:
         pgsql.sqlite3 = saved
+
+
+def outcome_of(exc, planted=None):
+    """Outcome of a call in the terms of Model/Store.lean `Outcome`: 'parsing' = `with_connection` TRANSLATED a sqlite3 error into a
+    ParsingError; 'other' = an exception left the call as it was raised — also when that exception happens to be a ParsingError (one
+    planted by the harness, or one the module raised by itself between two statements: for the wrapper it is not a sqlite3 error)."""
+    if exc is None:
+        return "ok"
+    if exc is planted:
+        return "other"
+    if type(exc).__name__ == "ParsingError" and not isinstance(exc.__cause__ or exc.__context__, sqlite3.Error):
+        return "other"
+    return sl.outcome_of(exc)
 
 
 def in_child(pgsql, plan, thunk):
